@@ -6,6 +6,7 @@
 // the exact weighted, datum-constrained least-squares solution computed from the specification.
 #include "netcommon.h"
 #include <fstream>
+#include <typeinfo>
 #include <gnu_gama/xml/localnetwork_adjustment_results.h>
 #include <gnu_gama/statan.h>
 
@@ -349,7 +350,9 @@ static void same_printed(Real got, Real want, const std::string& label, sx::f64 
   else sx::check_eq(got, want, label);
 }
 static Real wrap400(Real z) { if (z < sx::rat(0)) z = z + sx::rat(400); if (z > sx::rat(400)) z = z - sx::rat(400); return z; }
-static void case_xml2d(const Spec2& spec, int alg) {
+static void case_xml2d(const Spec2& spec0, int alg, bool en = false) {
+  // frame "en" with the default angle sense is inconsistent: gama mirrors y internally and writes values back in the frame of the input
+  Spec2 spec = spec0; Real ys = sx::rat(1); if (en) { spec.axes = "en"; spec.ysign = -1; for (auto& p : spec.pts) p.y = -p.y; ys = sx::rat(-1); }
   // observation errors below 1e-7 rad / 0.01 mm and the a priori reference deviation: the writer's outlier tests then have one outcome
   std::vector<Real> err; { size_t k = 0; int last_dir = -1; for (auto& st : spec.st) { last_dir = -1; for (auto& ob : st.obs) { Real e = sx::input("e" + std::to_string(++k)); if (ob.kind == 1) sx::assume_range(e, Q(-1, 100000), Q(1, 100000)); else sx::assume_range(e, Q(-1, 10000000), Q(1, 10000000));
         if (ob.kind == 0) { if (last_dir >= 0) sx::assume_lt(err[last_dir], e); last_dir = (int)err.size(); } err.push_back(e); } } }
@@ -367,14 +370,14 @@ static void case_xml2d(const Spec2& spec, int alg) {
   same_printed(res.project_equations.sum_of_squares, r.vpv, tag + " sum of squares read back");
   // adjusted points
   for (auto& p : res.adjusted_points) { const LocalPoint& lp = IS->PD[PointID(p.id)]; sx::check_true(p.hxy && lp.free_xy(), tag + " adjusted point " + p.id + " has x,y", ""); if (!p.hxy || !lp.free_xy()) continue;
-    same_printed(p.x, lp.x() + x(lp.index_x()) / sx::rat(1000), tag + " adjusted x of " + p.id + " read back", (sx::f64)1e-8); same_printed(p.y, lp.y() + x(lp.index_y()) / sx::rat(1000), tag + " adjusted y of " + p.id + " read back", (sx::f64)1e-8);
+    same_printed(p.x, lp.x() + x(lp.index_x()) / sx::rat(1000), tag + " adjusted x of " + p.id + " read back", (sx::f64)1e-8); same_printed(p.y, ys * (lp.y() + x(lp.index_y()) / sx::rat(1000)), tag + " adjusted y of " + p.id + " read back", (sx::f64)1e-8);
     sx::check_true(p.cxy == lp.constrained_xy(), tag + " constrained flag of " + p.id, ""); }
   { int nfree = 0; for (auto& p : spec.pts) if (p.st != 'f') nfree++; sx::check_true((int)res.adjusted_points.size() == nfree, tag + " number of adjusted points", std::to_string(res.adjusted_points.size())); }
   // orientation shifts
   { int k = 0; for (int i = 1; i <= r.n; i++) if (IS->unknown_type(i) == 'R') { sx::check_true(k < (int)res.orientations.size(), tag + " orientation listed", ""); if (k >= (int)res.orientations.size()) break; auto& o = res.orientations[k++];
       sx::check_true(o.id == IS->unknown_pointid(i).str(), tag + " orientation belongs to station " + IS->unknown_pointid(i).str(), o.id);
-      Real z = wrap400(IS->unknown_standpoint(i)->orientation() * sx::rat(200) / Real(M_PI));      // y_sign*(o)*R2G expands to ((y_sign*o)*200.0)/M_PI same_printed(o.approx, z, tag + " approximate orientation of " + o.id + " read back", (sx::f64)1e-5);
-      same_printed(o.adj, wrap400(z + x(i) / sx::rat(10000)), tag + " adjusted orientation of " + o.id + " read back", (sx::f64)1e-5); }
+      Real z = wrap400(ys * IS->unknown_standpoint(i)->orientation() * sx::rat(200) / Real(M_PI));      // y_sign*(o)*R2G expands to ((y_sign*o)*200.0)/M_PI same_printed(o.approx, z, tag + " approximate orientation of " + o.id + " read back", (sx::f64)1e-5);
+      same_printed(o.adj, wrap400(z + ys * x(i) / sx::rat(10000)), tag + " adjusted orientation of " + o.id + " read back", (sx::f64)1e-5); }
     sx::check_true(k == (int)res.orientations.size(), tag + " number of orientation shifts", ""); }
   // observations
   sx::check_true((int)res.obslist.size() == r.m, tag + " observation list length", "");
@@ -417,7 +420,37 @@ static void gen_cases(const sx::Options& opt, std::vector<sx::Case>& cases) {
   if (on("C01") || on("C02") || on("C03") || on("C05")) { for (auto& s : fixed) { auto sp = std::make_shared<Spec2>(s); add("net2d/oracle/" + s.name, "plane networks", [sp] { case_oracle(*sp); }); }
     for (auto& s : freen) { auto sp = std::make_shared<Spec2>(s); add("net2d/oracle/" + s.name, "plane networks", [sp] { case_oracle(*sp); }); }
     if (th) for (auto& s : fixed) { auto sp = std::make_shared<Spec2>(s); add("net2d/oracle-decreasing/" + s.name, "plane networks", [sp] { g_reverse_order = true; try { case_oracle(*sp); } catch (...) { g_reverse_order = false; throw; } g_reverse_order = false; }); } }
-  if (on("C06")) { int k = 0; for (auto& s : fixed) for (int omit = 0; omit < 2; omit++) { int alg = (k++) % 3; auto sp = std::make_shared<Spec2>(s); add("net2d/consistent/" + s.name + "/" + ALGS[alg] + (omit ? "/acord" : "/given"), "plane networks", [sp, alg, omit] { case_consistent(*sp, alg, omit != 0); }); } }
+  if (on("C06")) { int k = 0;
+    // resections: a free point that is only a station (directions or angles to fixed points), its coordinates left to Acord2
+    for (int variant = 0; variant < 3; variant++) { Spec2 s; s.name = std::string("resection-") + (variant == 0 ? "directions" : variant == 1 ? "angles" : "directions-T2");
+      Q X0 = 1000, Y0 = 2000; s.pts = {{"A", X0, Y0, 'f', true}, {"B", X0 + 400, Y0, 'f', true}, {"C", X0 + 400, Y0 + 300, 'f', true}, {"D", X0, Y0 + 300, 'f', true}, {"E", X0 + 200, Y0 + 150, 'a', true}};
+      if (variant == 2) { s.pts[4].x = X0 + 100; s.pts[4].y = Y0 + 75; s.pts[2].x = X0 + 200; s.pts[2].y = Y0 + 150; }      // E on the diagonal, C at the centre: other bearings
+      St2 st; st.from = 4; st.zero = Q(23, 10);
+      if (variant != 1) { for (int t : {0, 1, 3}) st.obs.push_back({0, t, 0, Q(10)}); if (variant == 0) st.obs.push_back({0, 2, 0, Q(10)}); }
+      else { st.obs.push_back({2, 0, 1, Q(10)}); st.obs.push_back({2, 1, 2, Q(10)}); st.obs.push_back({2, 2, 3, Q(10)}); }
+      s.st.push_back(st);
+      for (int omit = 0; omit < 2; omit++) { int alg = (k++) % 3; auto sp = std::make_shared<Spec2>(s); add("net2d/consistent/" + s.name + "/" + ALGS[alg] + (omit ? "/acord" : "/given"), "plane networks", [sp, alg, omit] { case_consistent(*sp, alg, omit != 0); }); } }
+    // two-angle resections in pseudo-random integer geometries (general position: the constants are radicals and arctangents, compared
+    // numerically); which of the two circle intersections is the point, and where bearing 0 falls, varies from one to the next
+    // (the family is fixed, independent of VERIF_SEED; the second pass regenerates the family of another seed only to add two of its
+    //  members, for which Acord2 finds no coordinates although the resection is well conditioned: listed as known findings by name)
+    for (int pass = 0; pass < 2; pass++) { qla::Rng rng(606 + pass); int made = 0;
+      for (int t = 0; made < (pass ? 60 : (th ? 60 : 24)) && t < 400; t++) { Spec2 s; s.name = (pass ? "resection-unresolved" : "resection-random") + std::to_string(made);
+        long tx = rng.range(-300, 300), ty = rng.range(-300, 300); long px[3], py[3]; bool ok = true;
+        for (int i = 0; i < 3; i++) { px[i] = rng.range(-500, 500); py[i] = rng.range(-500, 500); if (std::labs(px[i] - tx) + std::labs(py[i] - ty) < 60) ok = false; for (int j = 0; j < i; j++) if (std::labs(px[i] - px[j]) + std::labs(py[i] - py[j]) < 60) ok = false; }
+        // not (nearly) on the circle through the three targets, targets not collinear with the point
+        { double ax = px[0], ay = py[0], bx = px[1], by = py[1], cx = px[2], cy = py[2]; double d = 2 * (ax * (by - cy) + bx * (cy - ay) + cx * (ay - by)); if (std::fabs(d) < 2e4) ok = false; else {
+            double ux = ((ax * ax + ay * ay) * (by - cy) + (bx * bx + by * by) * (cy - ay) + (cx * cx + cy * cy) * (ay - by)) / d, uy = ((ax * ax + ay * ay) * (cx - bx) + (bx * bx + by * by) * (ax - cx) + (cx * cx + cy * cy) * (bx - ax)) / d;
+            double R = std::hypot(ax - ux, ay - uy), dist = std::hypot(tx - ux, ty - uy); if (std::fabs(dist - R) < 0.15 * R) ok = false; }
+          // the sights from the point cut each other at 30..150 degrees (no weak resection: Acord2 refuses those on purpose)
+          for (int i = 0; i < 3 && ok; i++) for (int j = 0; j < i; j++) { double c = (double)(px[i] - tx) * (py[j] - ty) - (double)(py[i] - ty) * (px[j] - tx); double n1 = std::hypot(px[i] - tx, py[i] - ty), n2 = std::hypot(px[j] - tx, py[j] - ty); if (std::fabs(c) < 0.5 * n1 * n2) ok = false; } }
+        if (!ok) continue;
+        s.pts = {{"A", Q(px[0]), Q(py[0]), 'f', true}, {"B", Q(px[1]), Q(py[1]), 'f', true}, {"C", Q(px[2]), Q(py[2]), 'f', true}, {"T", Q(tx), Q(ty), 'a', true}};
+        St2 st; st.from = 3; st.zero = Q(0); st.obs.push_back({2, 0, 1, Q(10)}); st.obs.push_back({2, 1, 2, Q(10)}); s.st.push_back(st);
+        int alg = made % 3; auto sp = std::make_shared<Spec2>(s);
+        if (!pass || made == 42 || made == 49) add("net2d/consistent/" + s.name + "/" + ALGS[alg] + "/acord", "plane networks", [sp, alg] { case_consistent(*sp, alg, true); });
+        made++; } }
+    for (auto& s : fixed) for (int omit = 0; omit < 2; omit++) { int alg = (k++) % 3; auto sp = std::make_shared<Spec2>(s); add("net2d/consistent/" + s.name + "/" + ALGS[alg] + (omit ? "/acord" : "/given"), "plane networks", [sp, alg, omit] { case_consistent(*sp, alg, omit != 0); }); } }
   if (on("C07")) { int k = 0; for (auto& s : fixed) for (int v : {2, 3, 10, 11, 12, 13, 14}) { if (v >= 10 && v - 10 >= (int)s.st.size()) continue; if (!th && v >= 10 && v != 10 && v != 12) continue; int alg = (k++) % 3; auto sp = std::make_shared<Spec2>(s); bool rev = (v >= 10) && ((v + k) % 2 == 0);      // the errors of the sets in decreasing order for every other turned set
       add("net2d/equiv/" + s.name + "/" + ALGS[alg] + "/variant" + std::to_string(v) + (rev ? "-decreasing" : ""), "plane networks", [sp, alg, v, rev] { g_reverse_order = rev; try { case_equiv(*sp, alg, v); } catch (...) { g_reverse_order = false; throw; } g_reverse_order = false; }); } }
   if (on("C09")) { int k = 0; for (auto& s : fixed) for (int ap = 0; ap < 2; ap++) { int alg = (k++) % 3; auto sp = std::make_shared<Spec2>(s); add("net2d/stats/" + s.name + "/" + ALGS[alg] + (ap ? "/aposteriori" : "/apriori"), "plane networks", [sp, alg, ap] { case_stats(*sp, alg, ap != 0); }); }
@@ -444,7 +477,8 @@ static void gen_cases(const sx::Options& opt, std::vector<sx::Case>& cases) {
     for (auto& s : fixed) { if (&s != &fixed[0] && !th) continue; int nobs = 0; for (auto& st : s.st) nobs += (int)st.obs.size();
       for (int q = 0; q < nobs; q += (th ? 2 : 5)) { int alg = (k++) % 3; auto sp = std::make_shared<Spec2>(s); add("net2d/outlier/" + s.name + "/" + ALGS[alg] + "/obs" + std::to_string(q), "plane networks", [sp, alg, q] { case_outlier(*sp, alg, q); }); } } }
   if (on("C12")) { int k = 0; for (auto& s : fixed) { int alg = (k++) % 3; auto sp = std::make_shared<Spec2>(s); add("net2d/xml/" + s.name + "/" + ALGS[alg], "plane networks", [sp, alg] { case_xml2d(*sp, alg); }); }
-    { auto sp = std::make_shared<Spec2>(freen[2]); add("net2d/xml/" + freen[2].name + "/envelope", "plane networks", [sp] { case_xml2d(*sp, 0); }); } }
+    { auto sp = std::make_shared<Spec2>(freen[2]); add("net2d/xml/" + freen[2].name + "/envelope", "plane networks", [sp] { case_xml2d(*sp, 0); }); }
+    { auto sp = std::make_shared<Spec2>(fixed[0]); add("net2d/xml/" + fixed[0].name + "@en/gso", "plane networks", [sp] { case_xml2d(*sp, 2, true); }); auto sq = std::make_shared<Spec2>(fixed[2]); add("net2d/xml/" + fixed[2].name + "@en/envelope", "plane networks", [sq] { case_xml2d(*sq, 0, true); }); } }
   if (on("C08")) { for (int alg = 0; alg < 3; alg++) { auto sp = std::make_shared<Spec2>(freen[0]); add(std::string("net2d/datum/quad-dd/") + ALGS[alg], "plane networks", [sp, alg] { case_datum(*sp, alg, {"ccccc", "ccaaa", "acaca", "aaccc"}); });
       auto sq = std::make_shared<Spec2>(freen[1]); add(std::string("net2d/datum/quad-d/") + ALGS[alg], "plane networks", [sq, alg] { case_datum(*sq, alg, {"ccccc", "ccaaa", "acaca"}); }); } }
 }
